@@ -13,8 +13,26 @@ def module_fns(F, f, module):
     out = [F.fns[p] for p in sorted(reach) if p in F.fns and (p.startswith(module) or p.startswith(f.path))]
     return out
 
+def parser_scope(F, f, module):
+    """from_str with the module's helper functions spliced in (so `parse_core_component(&caps, "major")?` is judged like the
+    inline code it replaces), plus every closure built in that body, each with its own local calls spliced in."""
+    okf = lambda F_, caller, cp, g: g is not None and g.kind != "closure" and (cp.startswith(module) or cp.startswith(f.path.rsplit("::", 1)[0]))
+    root = mir.inlined(F, f, depth=4, ok=okf)
+    out = [root]; seen = set()
+    work = [root]
+    while work:
+        g = work.pop()
+        for c in mir.closures_in(F, g):
+            if c.path in seen: continue
+            seen.add(c.path)
+            ci = mir.inlined(F, c, depth=3, ok=okf)
+            out.append(ci); work.append(ci)
+    return out
+
 def analyse_from_str(F, f, rep, R, module):
     info = {"pattern": None, "checked_groups": set(), "groups_read": {}, "parse_sites": []}
+    scope = parser_scope(F, f, module)
+    f0 = f; f = scope[0]
     # ---- anchor: the regex ------------------------------------------------------
     statics = rx.statics_used(f)
     pats = []
@@ -37,8 +55,8 @@ def analyse_from_str(F, f, rep, R, module):
         else:
             rep.bad(R + ".2", "haystack-modified", "the string matched against the regex is not the unmodified input: %r" % os, "%s bb%d line %s" % (f.where(), bi, f.blocks[bi]["line"]))
     # ---- R.3 rejection sites --------------------------------------------------------
-    fns = module_fns(F, f, module)
-    rep.fn_seen(*fns)
+    rep.fn_seen(*module_fns(F, f0, module))
+    fns = scope
     n_nomatch = 0
     info["numeric_sites"] = []
     for g in fns:
@@ -102,7 +120,8 @@ PLUMBING = ("Option::<T>::map", "Option::<std::result::Result<T, E>>::transpose"
             "Iterator::map", "Iterator::collect", "Option::<T>::unwrap", "Option::<T>::expect", "ops::Deref>::deref",
             "regex::Regex::captures", NAME, PARSE, "IntoIterator>::into_iter", "ops::function::Fn", "FnMut", "FnOnce", "Result::<T, E>::map",
             "Option::<T>::is_some", "Option::<T>::as_ref", "std::fmt::format", "std::hint::must_use", "std::fmt::Arguments::<'a>::new",
-            "core::fmt::rt::Argument::<'_>::new_", "ToString>::to_string", "std::fmt::Arguments::<'a>::from_str")
+            "core::fmt::rt::Argument::<'_>::new_", "ToString>::to_string", "std::fmt::Arguments::<'a>::from_str",
+            TRYB, "FromResidual", "from_residual")
 NO_DESCEND = ("map_err", "ok_or_else", "ok_or", "unwrap_or_else")
 
 def back_slice(F, fn, op, depth=0, seen=None):
@@ -271,8 +290,61 @@ def constant_fallbacks(F, rep, rule, fns):
         # match / if-let on a Result<_, ParseIntError>
         for bi, si, s in g.stmts():
             if s[0] == "=" and s[2][0] == "discr" and s[2][2].startswith("std::result::Result<") and "ParseIntError" in s[2][2]:
-                rep.bad(rule, "unrecognised-shape:%s:match" % g.path.replace("crate::", ""), "match on a numeric parse Result: audit the Err arm", "%s bb%d" % (g.where(), bi))
+                n += 1
+                verdict, why = audit_err_arm(F, g, bi, s)
+                key = "%s:match" % g.path.replace("crate::", "")
+                site = "%s bb%d line %s" % (g.where(), bi, g.blocks[bi]["line"])
+                if verdict is True: rep.ok(rule, "match on a numeric parse: the Err arm %s" % why, sample=site, nontrivial_key=key + str(bi))
+                elif verdict is False: rep.bad(rule, "const-fallback:" + key, "numeric parse failure (overflow is reachable: digit runs are unbounded) is replaced by a value that does not depend on the input: %s" % why, site)
+                else: rep.undecided(rule, key, "match on a numeric parse Result whose Err arm is not understood: %s" % why, site)
     return n
+
+def audit_err_arm(F, g, bi, s):
+    """(True, why) when the Err arm of a `match text.parse()` re-uses the parsed text or propagates an error;
+    (False, why) when it only produces constants; (None, why) otherwise."""
+    t = g.blocks[bi]["t"]
+    if t[0] != "switch": return None, "discriminant not switched in the same block"
+    err_idx = next((v for v, nme in s[2][3] if nme == "Err"), 1)
+    tgt = {v: b for v, b in t[2]}
+    e_blk = tgt.get(err_idx, t[3] if all(v != err_idx for v, b in t[2]) else None)
+    ok_blks = [b for v, b in t[2] if v != err_idx] + ([t[3]] if err_idx in tgt else [])
+    if e_blk is None: return None, "no Err edge"
+    dom = mir.dominators(g)
+    arm = [b for b in mir.reachable(g, e_blk) if e_blk in dom.get(b, ()) and not g.blocks[b]["cleanup"]]
+    # the text that was parsed
+    src_keys = set()
+    for o in mir.trace_place(g, s[2][1], transparent=()):
+        if o.kind == "call":
+            tp = o.fn.blocks[o.data]["t"]
+            if mir.call_matches(tp, (PARSE,)) and tp[2]:
+                src_keys |= {o2.key() for o2 in mir.trace_op(g, tp[2][0])}
+    uses_input = False; propagates = False; consts = 0
+    for b in arm:
+        blk = g.blocks[b]
+        ops = []
+        for st in blk["s"]:
+            if st[0] != "=": continue
+            rv = st[2]
+            if rv[0] == "agg":
+                if isinstance(rv[1], dict) and rv[1].get("variant") == "Err" and "Result" in str(rv[1].get("adt")): propagates = True
+                ops += list(rv[2])
+            elif rv[0] in ("use", "cast", "un"): ops.append(rv[1] if rv[0] == "use" else rv[2])
+            elif rv[0] == "ref": ops.append(["cp", rv[2]])
+        tt = blk["t"]
+        if tt[0] == "call":
+            c = mir.callee(tt) or ""
+            if "FromResidual" in c or c.endswith("from_residual"): propagates = True
+            ops += list(tt[2])
+        for o in ops:
+            if not isinstance(o, list) or not o: continue
+            if o[0] == "c":
+                if o[1].get("k") in ("int", "str", "bool", "char"): consts += 1
+                continue
+            if o[0] in ("cp", "mv") and src_keys and any(x.key() in src_keys for x in mir.trace_op(g, o)): uses_input = True
+    if uses_input: return True, "re-uses the text that failed to parse"
+    if propagates: return True, "returns / propagates an error"
+    if consts and not uses_input: return False, "only constants are produced on the Err arm (blocks %s)" % sorted(arm)[:4]
+    return None, "Err arm has no recognisable effect"
 
 def language_verdict(rep, rule, res, subject, oracles, pair, info, gname):
     pats = res["patterns"]
